@@ -26,12 +26,16 @@ open FlexModel.Fac FlexModel.Fac.Mon
 /-- the shape of the code the models rely on: the expiry callback returns at once when the service is not active,
 re-arms in a `finally`, `_schedule_next_check` refuses while inactive, `stop()` cancels the timer;
 `_generate_and_send_cam` writes no management state itself and calls `_update_send_state` only after the
-Annex B.2.5 `try` (whose handler returns); the VAM callback compares generationDeltaTime values only through the
-wrap-aware subtraction. -/
+Annex B.2.5 `try` (whose handler returns); every store to `t_gen_cam` is T_GEN_CAM_MAX or a two-sided clamp to
+[T_GEN_CAM_MIN, T_GEN_CAM_MAX] (`Cam.clampT`, the invariant of `cam_tgen_bounds_and_timer_loop` behind `cam_max_gap` —
+also for a condition-1 CAM that goes out more than T_GenCamMax after the previous one because earlier attempts
+failed or the timer was late); the VAM callback compares generationDeltaTime values only through the wrap-aware
+subtraction. -/
 theorem code_shape :
     Generated.FacFlow.CAM_CHECK_GUARDED = true ∧ Generated.FacFlow.CAM_CHECK_REARMS_IN_FINALLY = true ∧
     Generated.FacFlow.CAM_SCHEDULE_GUARDED = true ∧ Generated.FacFlow.CAM_STOP_CANCELS_TIMER = true ∧
     Generated.FacFlow.CAM_GENERATE_STATE_WRITES = [] ∧ Generated.FacFlow.CAM_UPDATE_AFTER_SEND_TRY = true ∧
+    Generated.FacFlow.CAM_TGEN_ALWAYS_CLAMPED = true ∧
     Generated.FacFlow.VAM_GDT_RAW_COMPARISONS = 0 := by decide
 
 /-- the code is the repaired variant of each of the three defects of round 3 (the LDM feed cannot abort the
@@ -203,6 +207,14 @@ example : (camLog (fun q p => (p.1 - q.1).natAbs) {} [.start,
     .report { rid := 2, its := none, heading := some 0, speed := none, pos := some (4001, 0) }, .check 1200 .none,
     .check 1300 .none]).map (fun e => e.2.map (fun c => (c.t, c.cond))) =
     [none, none, some (1000, 1), some (1100, 2), none, some (1200, 1), some (1300, 2)] := by decide
+/-- a condition-1 CAM that goes out MORE than T_GenCamMax after the previous one (the attempts at the two checks at which
+the time-triggered CAM was due failed, the speed changed meanwhile): T_GenCam is clamped to T_GenCamMax, the next
+time-triggered CAM follows 1000 ms later, not 1200 ms -/
+example : (camLog (fun _ _ => 0) {} [.start,
+    .report { rid := 1, its := none, heading := some 0, speed := some 1000, pos := none }, .check 1000 .none, .check 1100 .none,
+    .check 2100 .btp, .report { rid := 2, its := none, heading := some 0, speed := some 2000, pos := none }, .check 2200 .encode,
+    .check 2300 .none, .check 3200 .none, .check 3300 .none]).map (fun e => e.2.map (fun c => (c.t, c.cond))) =
+    [none, none, some (1000, 1), some (1100, 2), none, none, none, some (2300, 1), none, some (3300, 2)] := by decide
 
 end cam
 
